@@ -350,6 +350,7 @@ func (h *harness) rejections(s int, r *lib.RNG) error {
 	if err != nil {
 		return err
 	}
+	lastErr := ""
 	check := func(what, line string, implAccepts bool) error {
 		ans, err := h.drv.Ask(line)
 		if err != nil {
@@ -358,7 +359,7 @@ func (h *harness) rejections(s int, r *lib.RNG) error {
 		h.res.Compared(1)
 		h.res.Hit("store-refusal:" + what)
 		if (ans == "ok") != implAccepts {
-			h.res.Mismatch(lib.Mismatch{Sig: "model-store:" + what, Input: line, Model: ans, Impl: fmt.Sprintf("accepted=%v", implAccepts)})
+			h.res.Mismatch(lib.Mismatch{Sig: "model-store:" + what, Input: line, Model: ans, Impl: fmt.Sprintf("accepted=%v %s", implAccepts, lastErr)})
 		}
 		return nil
 	}
@@ -438,10 +439,10 @@ func (h *harness) rejections(s int, r *lib.RNG) error {
 		kind := ""
 		switch r.Intn(4) {
 		case 0:
-			if c := w.g.HeadState().Contracts[target]; isSystem(&target) && (c == nil || len(c.Storage) == 0) {
-				// a zero written to a system contract that holds no storage: the two state backends
-				// compute different roots for such a block (C01's subject), so it cannot be stored
-				// on both nodes at all; not a refusal of Store
+			if isSystem(&target) {
+				// zeros written to a system contract (to one that holds no storage, or emptying it):
+				// the two state backends then compute different roots for this or the next block
+				// (C01's subject), so the chain cannot live on both nodes; not a refusal of Store
 				continue
 			}
 			kind = "zero-write"
@@ -460,6 +461,10 @@ func (h *harness) rejections(s int, r *lib.RNG) error {
 		}
 		head := w.g.Head().Block
 		err := w.nextWith(d)
+		lastErr = ""
+		if err != nil {
+			lastErr = err.Error()
+		}
 		line := ""
 		if err == nil {
 			line = storeLine(w.g.Head())
